@@ -14,6 +14,7 @@ import (
 	"net/http"
 	"strings"
 	"testing"
+	"time"
 
 	"github.com/couchbase/sync_gateway/auth"
 	"github.com/couchbase/sync_gateway/base"
@@ -105,11 +106,16 @@ func TestVerif_C12_RestSession(t *testing.T) {
 				var ls auth.LoginSession
 				id, issued := sid[s]
 				if !issued {
-					S[s] = vObj{"exists": false, "user": "", "epoch": 0, "oneTime": false}
+					S[s] = vObj{"exists": false, "user": "", "epoch": 0, "oneTime": false, "aged": false}
 				} else if _, err := ds.Get(ctx, a.DocIDForSession(id), &ls); err != nil {
-					S[s] = vObj{"exists": false, "user": "", "epoch": 0, "oneTime": false}
+					S[s] = vObj{"exists": false, "user": "", "epoch": 0, "oneTime": false, "aged": false}
 				} else {
-					S[s] = vObj{"exists": true, "user": model(ls.Username), "epoch": eid(ls.SessionUUID), "oneTime": ls.OneTime != nil && *ls.OneTime}
+					ttl := ls.Ttl
+					if ttl == 0 {
+						ttl = 24 * time.Hour
+					}
+					S[s] = vObj{"exists": true, "user": model(ls.Username), "epoch": eid(ls.SessionUUID), "oneTime": ls.OneTime != nil && *ls.OneTime,
+						"aged": time.Now().Add(ttl).Sub(ls.Expiration) > ttl/10}
 				}
 			}
 			idleL := vObj{"s": "", "kind": "", "su": "", "se": 0, "so": false}
@@ -188,6 +194,18 @@ func TestVerif_C12_RestSession(t *testing.T) {
 			case "DeleteSession":
 				resp := rt.SendAdminRequest(http.MethodDelete, "/{{.db}}/_session/"+sessionID(st.S), "")
 				emit(st, true, "", resp.Code)
+			case "Age":
+				var ls auth.LoginSession
+				key := a.DocIDForSession(sessionID(st.S))
+				if _, err := ds.Get(ctx, key, &ls); err == nil {
+					ttl := ls.Ttl
+					if ttl == 0 {
+						ttl = 24 * time.Hour
+					}
+					ls.Expiration = time.Now().Add(ttl - ttl/5)
+					_ = ds.Set(ctx, key, base.DurationToCbsExpiry(ttl-ttl/5), nil, ls)
+				}
+				emit(st, true, "", 0)
 			case "Expire":
 				_ = ds.Delete(ctx, a.DocIDForSession(sessionID(st.S)))
 				emit(st, true, "", 0)
